@@ -69,6 +69,20 @@ CHECKS = {
              "through its own exit, labelled with its own circuit.",
         note="Entries may vanish through inactivity/age sweeps by design; the attack window is kept below those limits and circuits "
              "are kept busy. Sampling over topologies, schedules and attack lists."),
+    "C06": dict(
+        level="exploration", design="DESIGN.md 4/C06",
+        technique=TECH + ": real exit sockets on simulated outside transports at the end of real circuits; payload sweeps in "
+                         "both directions, DNS latency/failure, queue-before-open burst, colluding direct sender; independent "
+                         "policy classifier applied to the simulated wire",
+        text="For each of the 8 exit flag sets a real exit node terminates a real 1- or 2-hop circuit; a sweep of payloads (all "
+             "256x256 two-byte heads in the thorough tier, a boundary grid over uTP/tracker/bencode/IPv8 shapes and lengths, "
+             "seeded samples) is sent through the circuit to IPv4, IPv6, resolvable and unresolvable domain and null "
+             "destinations, and sent back from the outside at every open exit socket. Everything the simulated network sees "
+             "leaving an exit socket, and every data cell the exit sends into the tunnel because of an outside datagram, must "
+             "be allowed by a classifier written independently from the statement; nothing may go to 0.0.0.0:0; a correctly "
+             "keyed data cell from a foreign IP must not open the outside socket; allowed canaries must get out.",
+        note="The classifier is my reading of 'BitTorrent-shaped'/'IPv8-shaped'. Exhaustive over two-byte heads only in the "
+             "thorough tier; remainder bytes and lengths are sampled."),
     "C12": dict(
         level="exploration", design="DESIGN.md 4/C12",
         technique=TECH + ": operation histories (incl. snapshot/restart and LRU-overflow configurations) on the real Network "
